@@ -102,7 +102,7 @@ Definition hints_verdict (h : hints) (raw impl : list row) : Z :=
    0 ok;  1 the parse does not render back to the text;  2 the interpreter has no value for the query;
    3 model tree and implementation text mean different row lists;  4 rows differ from the Prometheus
    meaning although no recorded cause applies;  5 .. explained by: absent label accepted by a matcher;
-   7 .. more than 8 matchers (UInt8 shift);  8 no matcher at all;  9 .. 12 see hints_verdict *)
+   7 .. more than 63 matchers (64-bit shift);  8 no matcher at all;  9 .. 12 see hints_verdict *)
 Definition sem_verdict (c : semcase) : Z :=
   let search := tbl_lookup (se_search c) in
   let full := tbl_lookup (se_full c) in
@@ -119,7 +119,7 @@ Definition sem_verdict (c : semcase) : Z :=
       if plain_hints h && negb (list_eqb row_eqb rows (expected_rows full h (se_ms c) (se_db c))) then
         match se_ms c with
         | [] => 8
-        | _ => if Nat.ltb 8 (List.length (se_ms c)) then 7
+        | _ => if Nat.ltb 63 (List.length (se_ms c)) then 7
                else if absent_label_case full (se_ms c) (se_db c) then 5
                else 4
         end
@@ -147,6 +147,15 @@ Definition engine_rows (impl : select) (text : string) (db : database) (search :
          | Some rows => (0%Z, rows)
          end
   end.
+
+(* one Select of a multi-Select run on one querier (harness promsel, kind "multi"): the labels request is answered
+   from the series table by the list reading fetch_rows with the window of THIS call *)
+Definition multi_answer (series : list tsrow) (from_ms to_ms : Z) (fps : list N) : list fetch_row :=
+  fetch_rows (from_day (from_ms * 1000000)) (to_ms / 86400000)%Z fps series.
+Definition multi_scase (id : Z) (cluster : bool) (h : hints) (ms : list matcher) (rows : list row) (series : list tsrow)
+    (obs : list out_series) : scase :=
+  {| sc_id := id; sc_mr := snd (querier_transpile cluster "qryn" h ms); sc_rows := rows;
+     sc_fetch := multi_answer series (h_start h) (h_end h) (fps_of rows); sc_obs := obs |}.
 
 (* the Select loop's model decision for MapResult *)
 Definition querier_mr (cluster : bool) (h : hints) (ms : list matcher) : bool := snd (querier_transpile cluster "qryn" h ms).
@@ -204,7 +213,7 @@ Definition psem_verdict (c : psemcase) : Z :=
     let reading := sortN (prof_fp_sel search D1 D2 (map prof_selector_val (pe_sels c)) rows) in
     let expected := sortN (prof_expected full D1 D2 (pe_sels c) (pe_series c)) in
     if negb (list_eqb N.eqb impl expected) then
-      (if Nat.ltb 8 (kv_count (pe_sels c)) then 7
+      (if Nat.ltb 63 (kv_count (pe_sels c)) then 7
        else if prof_absent_case full (pe_sels c) (pe_series c) then 5 else 4)
     else if negb (list_eqb N.eqb impl model) then 3
     else if negb (list_eqb N.eqb model reading) then 9
